@@ -170,3 +170,25 @@ def oer_addition_name_not_canonical(f):
     if t is None:
         return False
     return any('-' in m.name for s in _seqs(t, env) for m in _addition_members(s))
+
+
+def oer_bit_string_five_to_seven_octets(f):
+    """OER: a BIT STRING of 33..56 bits is kept in a uint64_t and written as 8 octets (value_length() knows 1, 2, 3,
+    4 and 8), the Python codec writes ceil(n / 8) octets."""
+    if f.get('codec') != 'oer' or f['kind'] not in ENC_DEC + ('v2-decode-failed', 'v2-decode-mismatch'):
+        return False
+    return only(f, lambda l: l.kind == 'BITSTRING' and l.size is not None and l.size.lo() == l.size.hi()
+                and 33 <= l.size.lo() <= 56, allow_cho_ext=True, allow_adds=f['kind'].startswith('v2-'),
+                defaults=lambda m: True)
+
+
+def oer_fixed_sequence_of_256(f):
+    """OER: a fixed-size SEQUENCE OF with 256 or more elements is encoded with a two-octet quantity, but the decoder
+    for fixed sizes insists on a one-octet quantity (number_of_length_bytes != 1 -> EBADLENGTH)."""
+    if f.get('codec') != 'oer' or f['kind'] not in ('decode-failed', 'redecode-failed', 'v2-decode-failed'):
+        return False
+    t, env = _term(f)
+    if t is None:
+        return False
+    return any(isinstance(n, Of) and n.size is not None and n.size.lo() == n.size.hi() and n.size.lo() >= 256
+               for n in nodes(t, env)) and all(plain_leaf(l) for l in leaves(t, env))
